@@ -68,7 +68,7 @@ def required_counters(tier):
         "conj.dtype_fail": 20,
         "conj.any_missing_attr": 5,
         "transcripts_compared": 1000,
-        "prior_nonempty": 1000, "annotation_object_rechecked": 5000, "br.named.hostile_axis_name": 500, "temporaries.checks": 100, "array_type_membership.steps": 30,
+        "prior_nonempty": 1000, "annotation_object_rechecked": 5000, "br.named.hostile_axis_name": 500, "temporaries.checks": 100, "array_type_membership.steps": 30, "enclosed_scripts": 300,
     }
     return base
 
@@ -374,10 +374,35 @@ def run_context(rec, rng, tier, script=None, ctx=None):
                     return
             single, variadic = s1, v1
 
-    if ctx["kind"] == "call":
-        real.in_call_context(ctx["n"], ctx["m"], body, holder, *ctx.get("extra", ()), **ctx.get("opts", {}))
+    def inner():
+        if ctx["kind"] == "call":
+            real.in_call_context(ctx["n"], ctx["m"], body, holder, *ctx.get("extra", ()), **ctx.get("opts", {}))
+        else:
+            real.in_block_context(body)
+
+    if ctx.get("enclosed", (not replaying) and rng.random() < 0.2):
+        # "sizes bound in THAT context": the script runs one level down, inside a scope that has bound the usual axis
+        # names to other sizes - the script's checks neither see nor change them
+        ctx["enclosed"] = True
+
+        def outer():
+            import numpy as np
+
+            import jaxtyping
+
+            isinstance(real.np_array((11, 12, 13)), jaxtyping.Shaped[np.ndarray, "a b c"])
+            isinstance(real.np_array((14, 15, 16, 17)), jaxtyping.Shaped[np.ndarray, "n m *v"])
+            before = real.raw_transcript()
+            inner()
+            after = real.raw_transcript()
+            rec.count("enclosed_scripts")
+            if before != after:
+                rec.violation("enclosing-scope", {"ctx": ctx, "script": script}, f"the enclosing scope's bindings changed while the script ran one level down: {before!r} -> {after!r}", mechanism="enclosing-scope-changed-by-inner-check")
+
+        real.in_block_context(outer)
     else:
-        real.in_block_context(body)
+        ctx["enclosed"] = False
+        inner()
     return out
 
 
